@@ -90,8 +90,8 @@ VARIABLE out
 Init == out = <<>>
 Next == /\ out = <<>>
         /\ \/ \E L \in LimitsR : \E s \in SweepT(L), small \in BOOLEAN : out' = ScnRecvReq(L, s, small)
-           \/ \E s \in {200, 1000} : out' = ScnRecvReqHuge(s)
-           \/ \E v \in {Max62, <<0,0,0,0,64,0,0,0>>, <<0,0,0,1,0,0,0,0>>}, s \in {200, 1000} : out' = ScnSendReqHuge(v, s)
+           \/ \E s \in {200, 400} : out' = ScnRecvReqHuge(s)
+           \/ \E v \in {Max62, <<0,0,0,0,64,0,0,0>>, <<0,0,0,1,0,0,0,0>>}, s \in {200, 400} : out' = ScnSendReqHuge(v, s)
            \/ \E L \in {0, 1, 100, 166, 167, 168} : out' = ScnRecvReq(L, 200, FALSE)
            \/ \E L \in LimitsR : \E t \in SweepT(L), three \in BOOLEAN : out' = ScnRecvTrailers("server", L, t, three)
            \/ \E L \in {100, 207} : \E t \in Sweep(L), three \in BOOLEAN : t >= 99 /\ out' = ScnRecvTrailers("client", L, t, three)
